@@ -629,6 +629,10 @@ class List(list, base.Symbolic, pg_typing.CustomTyping):
           self._error_message('Cannot delete List item while accessor_writable '
                               'is set to False. '
                               'Use \'rebind\' method instead.'))
+    self._delete_item(index)
+
+  def _delete_item(self, index: int) -> None:
+    """Deletes an item. The permission checks are up to the caller."""
     if not isinstance(index, numbers.Integral):
       raise TypeError(
           f'list index must be an integer. Encountered {index!r}.')
@@ -736,8 +740,11 @@ class List(list, base.Symbolic, pg_typing.CustomTyping):
       raise IndexError('pop index out of range')
     index = (index + len(self)) % len(self)
     value = self[index]
-    with flags.allow_writable_accessors(True):
-      del self[index]
+    # NOTE: `pop` is not an accessor: it works with `accessor_writable=False`.
+    # The change callbacks run under the caller's scope, not a permissive one.
+    if base.treats_as_sealed(self):
+      raise base.WritePermissionError('Cannot delete item from a sealed List.')
+    self._delete_item(index)
     return value
 
   def remove(self, value: Any) -> None:
